@@ -566,7 +566,32 @@ impl Client {
                 Some(ref_sign(&good_body, &s2))
             }
             "otherIp" => {
-                let b = self.cookie_json(&self.conc.cookie, &self.conc.cookie_props, self.conc.other_addr, now);
+                // an unrelated address, or one that merely LOOKS like the client's: the deprecated IPv4-compatible form ::a.b.c.d of the
+                // client's IPv4 (or IPv4-mapped) address, a neighbour that differs in the last bit
+                let mine = self.ctx.client_addr;
+                let v4 = match mine.ip() {
+                    std::net::IpAddr::V4(a) => Some(a),
+                    std::net::IpAddr::V6(a) => a.to_ipv4_mapped(),
+                };
+                let addr = match (v % 3, v4, mine.ip()) {
+                    (1, Some(a), _) => {
+                        let o = a.octets();
+                        SocketAddr::new(std::net::IpAddr::V6(std::net::Ipv6Addr::new(0, 0, 0, 0, 0, 0, u16::from_be_bytes([o[0], o[1]]), u16::from_be_bytes([o[2], o[3]]))), mine.port())
+                    }
+                    (2, _, std::net::IpAddr::V4(a)) => {
+                        let mut o = a.octets();
+                        o[3] ^= 1;
+                        SocketAddr::new(std::net::IpAddr::V4(o.into()), mine.port())
+                    }
+                    (2, _, std::net::IpAddr::V6(a)) => {
+                        let mut o = a.octets();
+                        o[15] ^= 1;
+                        SocketAddr::new(std::net::IpAddr::V6(o.into()), mine.port())
+                    }
+                    _ => self.conc.other_addr,
+                };
+                self.var_note = format!("otherIp:{addr}");
+                let b = self.cookie_json(&self.conc.cookie, &self.conc.cookie_props, addr, now);
                 Some(ref_sign(&b, &secret))
             }
             "otherPort" => {
@@ -1425,6 +1450,7 @@ fn fanout_of(tr: &[Value], full: bool) -> u64 {
                     "tagFlip" => if full { 256 } else { 6 },
                     "bodyFlip" => if full { 1600 } else { 6 },
                     "otherSecret" => 4,
+                    "otherIp" => 3,
                     "expired" => 3,
                     "fresh" | "justInside" | "otherPort" | "jar" => 3,
                     _ => 1,
@@ -1448,7 +1474,8 @@ pub fn run_behaviour(idx: usize, b: &Value, seed: u64, var: u64) -> Value {
     let mut rng = Rng::new(seed.wrapping_mul(1_000_003).wrapping_add(idx as u64));
     let mut conc = Conc::new(&mut rng);
     // identity variants: the vouched / cookie identity may share the NAME or the UUID with the claimed one (never both)
-    match var % 3 {
+    // ... or be an unusual one: the service vouches for the nil UUID, or for an empty name (what it vouches for is what counts)
+    match var % 5 {
         1 => {
             conc.other.name = conc.claimed.name.clone();
             conc.cookie.name = conc.claimed.name.clone();
@@ -1457,6 +1484,8 @@ pub fn run_behaviour(idx: usize, b: &Value, seed: u64, var: u64) -> Value {
             conc.other.id = conc.claimed.id;
             conc.cookie.id = conc.claimed.id;
         }
+        3 => conc.other.id = Uuid::nil(),
+        4 => conc.other.name = String::new(),
         _ => {}
     }
     let conc = Arc::new(conc);
